@@ -140,6 +140,12 @@ def gen(rng, *, ia: bool = True, time: bool = True, conditionals: bool = True, c
             if c["kind"] == "variable" and "value" in c:
                 c["value"] = c["value"] * state_scale
         feats.add("values_over_many_orders_of_magnitude")
+        rx_ = [c for c in comps if c["kind"] == "reaction" and c["name"].startswith("v") and c["name"][1:].isdigit()]
+        if rx_ and rng.random() < 0.6:
+            # a by-product counted in other units: a plain coefficient far below one (it is a coefficient all the same)
+            comps.append({"kind": "variable", "name": "xtr", "value": 0.5 * state_scale})
+            rng.choice(rx_)["stoich"]["xtr"] = rng.choice([2.5e-10, 1.0 / 6.022e23, -4e-12])
+            feats.add("coefficient_far_below_one")
     spec = {"components": comps}
     spec = rm.shuffled(spec, rng)
     # was a dependent derived declared before what it uses?
